@@ -139,6 +139,9 @@ def case_fn(ctx, svc, d, draw, desc, snap):
 
 
 def replay_case(ctx, svc, d, case, desc):
+    if 'query' not in case and 'case' in case:
+        # violations of one (limit, randomize, seed) run wrap the query case
+        case = case['case']
     q = acref.Query.from_json(case['query'])
     check(ctx, svc, d, q, case['version'], case['qs'], desc,
           limits=case.get('limits'), seeds=(1, 2, 3, 4))
